@@ -88,14 +88,6 @@ Done == pc = "done"
 (* the global mean of a polynomial field: integrate monomials over the sphere.  With z-degree
    <= 1 only even powers of x and y and z-degree 0 contribute; mean(x^(2p) y^(2q)) over the unit
    sphere = (2p-1)!! (2q-1)!! / (2p+2q+1)!! *)
-RECURSIVE DFact(_)
-DFact(n) == IF n <= 0 THEN 1 ELSE n * DFact(n - 2)
-MeanMon(m) == IF m[3] # 0 \/ m[1] % 2 = 1 \/ m[2] % 2 = 1 THEN Zero
-              ELSE Norm(DFact(m[1] - 1) * DFact(m[2] - 1), DFact(m[1] + m[2] + 1))
-RECURSIVE MeanOver(_, _)
-MeanOver(p, S) == IF S = {} THEN Zero
-                  ELSE LET m == CHOOSE x \in S : TRUE IN RAdd(RMul(p[m], MeanMon(m)), MeanOver(p, S \ {m}))
-Mean(p) == MeanOver(p, DOMAIN p)
 
 Eigenfunctions == \A n \in DOMAIN HarmonicDegree :
    Lap(H[n]) = PScale(R(-HarmonicDegree[n] * (HarmonicDegree[n] + 1)), H[n])
